@@ -588,6 +588,22 @@ fn valid_header_bytes(rng: &mut Rng) -> Vec<u8> {
 
 pub fn drive_hdr(seed: u64, tier: &str, out: &mut Out) {
     let mut rng = Rng::new(seed ^ 0x4844);
+    // beyond the listed properties: the HTTP tables served from the header (reported as INFO drift only)
+    {
+        let mut rows = Vec::new();
+        for tt in 0u8..=5 {
+            for tc in 0u8..=4 {
+                let mut h = Header::default();
+                h.tile_type = tt_of(tt);
+                h.tile_compression = comp_of(tc);
+                rows.push(json!({"tt": tt, "tc": tc,
+                                 "ct": h.http_content_type().unwrap_or("none"), "ce": h.http_content_encoding().unwrap_or("none"),
+                                 "ct_enum": tt_of(tt).http_content_type().unwrap_or("none"),
+                                 "ce_enum": comp_of(tc).http_content_encoding().unwrap_or("none")}));
+            }
+        }
+        out.emit(json!({"ev": "Tables", "rows": rows, "mime": pmtiles2::MIME_TYPE}));
+    }
     let n_rand = if tier == "thorough" { 6000 } else { 600 };
     // ---- bytes -> header -> bytes
     let base = valid_header_bytes(&mut rng);
